@@ -42,6 +42,7 @@ LAYER = {1: "container: the inserted style is not the last child of the containe
          11: "exception: the operation raised on an input of the property's domain",
          12: "refused: a valid insertion was rejected"}
 FIDELITY = 9
+NOTES = {9: 'fidelity', 13: 'inv2_lost', 20: 'pre_state_outside_inv2'}     # reported in the evidence, not alarms
 
 
 class Interner:
@@ -278,11 +279,13 @@ def drive(odfdo, A, spec, pool):
         elif name == 'raw':
             root = A.roots(doc)[op[1] // 4]
             c = root.find(OF + KINDS[op[1] % 4])
-            c.append(etree.fromstring(style_xml(t, op[2])))
+            c.append(etree.fromstring(op[2]['xml'].replace('<number:text-style', '<number:text-style ' + XMLNS, 1) if 'xml' in op[2] else style_xml(t, op[2])))
+        elif name == 'add_table':
+            doc.body.append(odfdo.Table(op[1]))
         elif name == 'merge':
             other = odfdo.Document(op[1])
             for slot, s in (op[3] if len(op) > 3 else []):
-                A.roots(other)[slot // 4].find(OF + KINDS[slot % 4]).append(etree.fromstring(style_xml(t, s)))
+                A.roots(other)[slot // 4].find(OF + KINDS[slot % 4]).append(etree.fromstring(s['xml'].replace('<number:text-style', '<number:text-style ' + XMLNS, 1) if 'xml' in s else style_xml(t, s)))
             for s, mode in op[2]:
                 try: other.insert_style(odfdo.Element.from_tag(style_xml(t, s)), automatic=mode == 'automatic', default=mode == 'default')
                 except Exception: pass
@@ -307,7 +310,7 @@ def drive(odfdo, A, spec, pool):
         elif name == 'table':
             tabs = A.tables(doc)
             if not tabs: continue
-            tidx = op[1] % len(tabs)
+            tidx = len(tabs) - 1 if op[1] == -1 else op[1] % len(tabs)
             names_pre = {e[2] for s in pre if s for e in s}
             try:
                 doc.set_table_displayed(tidx, op[2])
@@ -507,13 +510,22 @@ def gen_cases(tier, rng, t, templates, samples, names_by_doc):
             for mode in ('common', 'automatic'):
                 ops = [['insert', dict(family=('table-cell', 'table')[i % 2], name=nm, variant=i, how='xml'), mode, None] for i, nm in enumerate(taken)]
                 cases.append(dict(doc=src, ops=ops + [['table', 0, False], ['table', 0, True], ['table', 1, False], ['reload']], family='table-names-taken'))
+    # (b3) a table without style name (the default table style of the text template must not be cloned)
+    for src in templates:
+        cases.append(dict(doc=src, ops=[['add_table', 'NewT'], ['table', -1, False], ['table', -1, True], ['reload']], family='unstyled-table'))
+    # (b4) an element with style:name that is no Style class (number:text-style, frequent in spreadsheets)
+    NTS = dict(xml='<number:text-style style:name="N100"><number:text-content/></number:text-style>')
+    cases.append(dict(doc='spreadsheet', ops=[['raw', 1, NTS], ['merge', 'spreadsheet', [], [[1, NTS]]]], family='number-text-style'))
+    cases.append(dict(doc='spreadsheet', ops=[['merge', 'spreadsheet', [], [[1, NTS]]]], family='number-text-style'))
+    cases.append(dict(doc='spreadsheet', ops=[['raw', 1, NTS], ['table', 0, False]], family='number-text-style'))
+    cases.append(dict(doc='spreadsheet', ops=[['raw', 1, NTS], ['delete']], family='number-text-style'))
     # (c) every document merged into a template of its kind and into itself
     for s in templates + samples:
         cases.append(dict(doc='text', ops=[['merge', s, []], ['reload']], family='merge-all'))
         cases.append(dict(doc=s, ops=[['merge', s, []]], family='merge-self'))
         cases.append(dict(doc=s, ops=[['pagebreak'], ['table', 0, False], ['delete'], ['reload']], family='ops-all-docs'))
     # (d) random histories
-    for _ in range(260 if tier == 'quick' else 4000):
+    for _ in range(260 if tier == 'quick' else 2500):
         cases.append(gen_history(rng, t, templates, samples, names_by_doc))
     return cases, nsys
 
@@ -567,6 +579,10 @@ def evaluate(specs, tables, pool, tag, nproc=16):
 
 def key_of(code, kind, spec, si, err):
     op = spec['ops'][si]
+    if code == 11 and err and "object has no attribute" in err and any(o[0] == 'raw' and 'xml' in o[2] for o in spec['ops'][:si + 1]) \
+            or code == 11 and err and "object has no attribute" in err and op[0] == 'merge' and len(op) > 3 and any('xml' in x[1] for x in op[3]):
+        return "get_styles/element-with-style-name-that-is-no-style-class"
+    if code == 1 and kind == 'table': return "set_table_displayed/default-table-style-cloned-into-automatic-styles"
     if code == 6: return "merge_styles_from/other-document-emptied"
     if code == 5 and kind == 'insert': return "insert_style/generated-name-equals-common-style-name"
     if code == 3 and kind == 'insert' and err == 'shadowed': return "insert_style/common-style-shadowed-by-content-style-of-same-name"
@@ -641,7 +657,7 @@ def run(tier, seed, replay=None):
         specs, nsys = gen_cases(tier, rng, tables, templates, samples, names_by_doc)
         specs = corpus + specs
     res, notes, errors, nterms = evaluate(specs, tables, None, "c13")
-    hard, fidelity, fam_hist, op_hist, kinds, outcomes, digests = [], 0, {}, {}, {}, {}, set()
+    hard, fidelity, fam_hist, op_hist, kinds, outcomes, digests, notes_count = [], 0, {}, {}, {}, {}, set(), {}
     for idx, spec in enumerate(specs):
         fam_hist[spec.get('family', 'corpus')] = fam_hist.get(spec.get('family', 'corpus'), 0) + 1
         for op in spec['ops']:
@@ -650,7 +666,9 @@ def run(tier, seed, replay=None):
         for si, kind, code, err, dg, oc in res[idx]:
             kinds[kind] = kinds.get(kind, 0) + 1; outcomes[oc] = outcomes.get(oc, 0) + 1
             digests.add(dg)
-            if code == FIDELITY: fidelity += 1
+            if code in NOTES:
+                notes_count[NOTES[code]] = notes_count.get(NOTES[code], 0) + 1
+                if code == FIDELITY: fidelity += 1
             elif code: hard.append((idx, si, kind, code, err))
     violations, known_seen, seen = [], [], {}
     for idx, si, kind, code, err in hard:
@@ -691,7 +709,7 @@ def run(tier, seed, replay=None):
         rule="histories over the four templates and %d sample documents: systematic (every family of FAMILY_MAPPING x common/automatic/default x named/unnamed, inserted twice, reloaded), generated-name gaps, every pool document merged into a template and into itself, every document through add_page_break_style / set_table_displayed / delete_styles / reload, then random histories (names drawn from the names existing in the document, generated-name shapes, unusual characters). evaluations = steps evaluated in Coq; distinct_nontrivial = distinct (operation, family/tag, name class, flags, replaced-or-not, outcome, container occupancy) among them" % len(samples),
         samples=[dict(doc=os.path.basename(s['doc']), ops=s['ops']) for s in specs[len(corpus) + nsys:][-3:]], histories=len(specs),
         families=fam_hist, ops=op_hist, checked_step_kinds=kinds, outcomes=outcomes, systematic_cases=nsys, corpus_cases=len(corpus),
-        fidelity_divergences=fidelity, property_level_failures=len(hard), driver_notes=len(notes), documents=len(templates) + len(samples), exhaustive=False)
+        fidelity_divergences=fidelity, notes=notes_count, steps_with_theorem_hypotheses_met=nterms - notes_count.get('pre_state_outside_inv2', 0) - len(hard) - notes_count.get('fidelity', 0) - notes_count.get('inv2_lost', 0), property_level_failures=len(hard), driver_notes=len(notes), documents=len(templates) + len(samples), exhaustive=False)
     return common.finish(PROP, tier, seed, proofs, coverage, violations, known_seen, t0,
                          assumptions=["style elements are fresh objects (not already attached to a document) when inserted",
                                       "default=True only documented for the standard families (mostly generated so)",
